@@ -1015,7 +1015,16 @@ func (x *Exec) effectsOfCall(fr *Frame, ci ssa.CallInstruction, eff *loopEffects
 			return
 		}
 	}
-	eff.why = append(eff.why, "exec.go:991")
+	if x.topFC != nil {
+		// "abstract call <substring> pure": the verified function treats the call as leaving the modelled state alone
+		for _, pat := range x.topFC.Abstract {
+			fs := strings.Fields(pat)
+			if len(fs) >= 3 && fs[0] == "call" && fs[2] == "pure" && strings.Contains(key, fs[1]) {
+				return
+			}
+		}
+	}
+	eff.why = append(eff.why, "exec.go:991 "+key)
 	eff.all = true
 }
 
